@@ -91,6 +91,9 @@ UNITS = [
                   "sort_subtypes_for_union returns a permutation of the members (two permutations explored per scenario)",
                   "the unit is the Union arm only: the rest of adapt_typehints is not part of this unit"]),
 ]
+from contracts.adapt_arms import arms_units  # noqa: E402
+UNITS = UNITS + arms_units("C02")
+
 VERIFIED_CALLEES = ("adapt_typehints",)
 LEVEL = "other"
 TECHNIQUE = "contract-based deductive verification (VCs from the real AST of the Union arm, recursion by contract) + bounded run-time contract checking against an independent structural validator"
